@@ -351,9 +351,16 @@ int sim_munmap(void* p, size_t len) {
   return munmap(p, len);
 }
 FILE* sim_fopen(const char* path, const char* mode) { return fopen(path, mode); }
-int sim_fclose(FILE* f) { int r = fclose(f); return g_fs.fclose_fails ? EOF : r; }
+int sim_fclose(FILE* f) { int r = fclose(f); if (g_fs.lost_bytes > 0) { g_fs.lost_bytes = 0; g_fs.faults_fired++; errno = ENOSPC; return EOF; } return g_fs.fclose_fails ? EOF : r; }
 size_t sim_fread(void* p, size_t size, size_t n, FILE* f) { return fread(p, size, n, f); }
 size_t sim_fwrite(const void* p, size_t size, size_t n, FILE* f) {
+  if (g_fs.fwrite_lost_after_bytes >= 0 && size) {   // stdio buffering: the call succeeds, what does not fit is lost, fclose reports it
+    int64_t room = g_fs.fwrite_lost_after_bytes - g_fs.fwritten; if (room < 0) room = 0;
+    size_t want = size * n, keep = (size_t) room < want ? (size_t) room : want;
+    if (keep) fwrite(p, 1, keep, f);
+    g_fs.fwritten += keep; g_fs.lost_bytes += want - keep;
+    return n;
+  }
   if (g_fs.fwrite_fail_after_bytes < 0 || size == 0) { size_t r = fwrite(p, size, n, f); g_fs.fwritten += r * size; return r; }
   int64_t room = g_fs.fwrite_fail_after_bytes - g_fs.fwritten;
   if (room < 0) room = 0;
